@@ -10,6 +10,7 @@ import (
 	"crypto/tls"
 	"fmt"
 	"net/http"
+	"net/textproto"
 
 	"github.com/pkg/errors"
 	"github.com/ysugimoto/falco/v2/interpreter/exception"
@@ -58,18 +59,21 @@ func SendRequest(req *Request) (*Response, error) {
 // through the `header.Get(key)` returns empty string even header is notset.
 // In order to follow the Faslty behavior, we need to store the header is actually assigned in this map
 // and check key existence whether header value is empty or notset.
+//
+// Header names are case-insensitive, so the map is keyed by the canonical form of the name,
+// the same key that http.Header uses for the value.
 type headerKeyStore map[string]struct{}
 
 // Distinguish whether header is actually assigned or not
 func (h headerKeyStore) IsAssigned(name string) bool {
-	_, v := h[name]
+	_, v := h[textproto.CanonicalMIMEHeaderKey(name)]
 	return v
 }
 
 func (h headerKeyStore) Assign(name string) {
-	h[name] = struct{}{}
+	h[textproto.CanonicalMIMEHeaderKey(name)] = struct{}{}
 }
 
 func (h headerKeyStore) Unassign(name string) {
-	delete(h, name)
+	delete(h, textproto.CanonicalMIMEHeaderKey(name))
 }
